@@ -760,6 +760,38 @@ def extract_flags():
               and len(c.args) == 1 and isinstance(c.args[0], ast.Name) and c.args[0].id == "prefix"
               and not any(isinstance(n, (ast.Assign, ast.AugAssign)) for n in ast.walk(tree)))
     flags["input_word_completions_get_prefix_unchanged"] = ok
+    # C12: the record codec puts Open.subprotocol on the wire as the plain UTF-8 of the str it was given — no
+    # normalisation (util.to_bytes / unicodedata), no other transformation — and reads it back with
+    # str(bytes, "utf8"); nothing else in either function touches the name
+    from wormhole._dilation import connection as _dcn
+    tree = ast.parse(textwrap.dedent(inspect.getsource(_dcn.encode_record)))
+    rets = [ast.unparse(n.value) for n in ast.walk(tree) if isinstance(n, ast.Return) and n.value is not None]
+    calls = {_call_name(n) for n in ast.walk(tree) if isinstance(n, ast.Call)}
+    flags["encode_record_subprotocol_plain_utf8"] = (
+        "T_OPEN + to_be4(r.scid) + to_be4(r.seqnum) + r.subprotocol.encode('utf8')" in rets
+        and calls <= {"isinstance", "to_be4", "r.subprotocol.encode", "TypeError"})
+    tree = ast.parse(textwrap.dedent(inspect.getsource(_dcn.parse_record)))
+    assigns = [ast.unparse(n) for n in ast.walk(tree) if isinstance(n, ast.Assign)]
+    calls = {_call_name(n) for n in ast.walk(tree) if isinstance(n, ast.Call)}
+    flags["parse_record_subprotocol_plain_utf8"] = (
+        "subprotocol = str(plaintext[9:], 'utf8')" in assigns
+        and "return Open(seqnum, scid, subprotocol)" in [ast.unparse(n) for n in ast.walk(tree) if isinstance(n, ast.Return)]
+        and calls <= {"from_be4", "str", "KCM", "Ping", "Pong", "Open", "Data", "Close", "Ack", "log.err", "ValueError"})
+    # C12: every candidate connection gets a Noise object of its own — build_protocol assigns a local from
+    # build_noise() and hands that local to the protocol; the Connector keeps no Noise object on itself
+    from wormhole._dilation import connector as _dco
+    tree = ast.parse(textwrap.dedent(inspect.getsource(_dco.Connector.build_protocol)))
+    local_fresh = any(isinstance(n, ast.Assign) and len(n.targets) == 1 and isinstance(n.targets[0], ast.Name)
+                      and n.targets[0].id == "noise" and isinstance(n.value, ast.Call) and _call_name(n.value) == "build_noise"
+                      and not n.value.args and not n.value.keywords for n in ast.walk(tree))
+    only_one_assign = sum(1 for n in ast.walk(tree) if isinstance(n, ast.Assign)
+                          and any(isinstance(t, ast.Name) and t.id == "noise" for t in n.targets)) == 1
+    handed = any(isinstance(n, ast.Call) and _call_name(n) == "DilatedConnectionProtocol"
+                 and any(isinstance(a, ast.Name) and a.id == "noise" for a in n.args) for n in ast.walk(tree))
+    ctree = ast.parse(textwrap.dedent(inspect.getsource(_dco.Connector)))
+    kept = any(isinstance(n, ast.Attribute) and "noise" in n.attr.lower() and isinstance(n.value, ast.Name)
+               and n.value.id == "self" for n in ast.walk(ctree))
+    flags["build_protocol_fresh_noise_per_protocol"] = local_fresh and only_one_assign and handed and not kept
     return flags
 
 
@@ -895,7 +927,8 @@ def lean_flags(flags):
 # ---------------------------------------------------------------------------
 # C05: `wormhole receive` path handling (cli/cmd_receive.py) — constants and unfiltered call skeletons
 
-RECV_METHODS = ["_decide_destname", "_remove_existing", "_extract_file", "_write_file", "_write_directory"]
+RECV_METHODS = ["_decide_destname", "_remove_existing", "_extract_file", "_write_file", "_write_directory",
+                "_handle_file", "_handle_directory", "_ask_permission"]
 RECV_KEEP = re.compile(r"^(os\.|self\._(remove_existing|extract_file|decide_destname|ask_permission)$|"
                        r"TransferRejectedError$|RespondError$|ValueError$|zf\.|zipfile\.|open$|input$|"
                        r"estimate_free_space$|f\.close$|\w+\.startswith$|shutil\.|tempfile\.)")
@@ -1108,6 +1141,19 @@ def extract_c06():
     L.append(f"def NONCE_SIZE : Nat := {SecretBox.NONCE_SIZE}")
     L.append(f"def KEY_SIZE : Nat := {SecretBox.KEY_SIZE}")
     L.append(f"def MACBYTES : Nat := {SecretBox.MACBYTES}")
+    # the two queues of a freshly built Connection: container type and capacity (`maxlen`; none = unbounded).  A bounded
+    # deque silently discards from the other end when full, which no per-record model can express.
+    def queue_of(attr):
+        try:
+            c = tr.Connection(None, None, 0.0, "")
+            q = getattr(c, attr)
+            return type(q).__name__, getattr(q, "maxlen", None)
+        except Exception:
+            return "?", 0
+    for attr, name in (("_inbound_records", "inbound_records"), ("_waiting_reads", "waiting_reads")):
+        ty, ml = queue_of(attr)
+        L.append(f"def {name}_type : String := {lean_str(ty)}")
+        L.append(f"def {name}_maxlen : Option Nat := {'none' if ml is None else 'some %d' % int(ml)}")
     L.append("/-- ordered outgoing calls `(guard-shape, callee)` of the `transit.Connection` record-layer methods -/")
     L.append("def skeleton : String → List (String × String)")
     for name in C06_SKELETON_METHODS:
